@@ -1,5 +1,8 @@
 (* Declarative side of C18: well-formedness of a [bnv], what an EBLIF document denotes, the
-   supported subset as a boolean predicate, and the equivalence used for write-then-read.
+   supported subset as a boolean predicate, the equivalence used for write-then-read, its boolean
+   decision [equiv_b] with the round-trip checker [rt_check], and the structural side condition
+   [roundtrippable].  The three booleans supported / roundtrippable / equiv_b are extracted
+   (Extract/ExtractBlif.v) and evaluated on every document of the correspondence run.
    Definitions only; the proofs are in Proofs/Blif*.v. *)
 From Coq Require Import List Arith NArith Bool Lia.
 From SV Require Import Base.Base Fmt.Blif Fmt.BlifRead Fmt.BlifWrite.
@@ -300,10 +303,11 @@ Definition denote (d : doc) (n : bnv) : Prop :=
 (* ====================================================================== the supported subset *)
 (* (1) the reader segments the file like the grammar (no statement line is silently skipped);
    (2) per section: every .conn comes after all statements that name nets, names two different
-       cables, and no cable is named by two .conn;
+       cables, no cable is named by two .conn, and no .conn names the cable another .conn creates;
    (3) a section instancing nothing but primitives that it does not itself redefine: model names
        are distinct, and the reserved definitions logic-gate_N / generic-latch are only created by
-       .names / .latch. *)
+       .names / .latch;
+   (4) .latch has two, four or five operands; no statement line contains "#". *)
 Definition cables_of_stmt (s : stmt) : list str :=
   let nm t := match nb_of t with Some (c, _) => [c] | None => [] end in
   match s with
@@ -329,6 +333,21 @@ Fixpoint nodup_strs (l : list str) : bool :=
 Definition conn_cables (body : list stmt) : list str :=
   flat_map (fun s => match s with SConn _ _ => cables_of_stmt s | _ => [] end) body.
 
+(* .conn gives the merged net a cable called <a>_<i>_<b>_<j>; a .conn operand that spells such a
+   name would capture the merged net (C18_sound_refuted_conn_capture), so no operand of a .conn of
+   the section may be the merge name of a .conn of the section *)
+Definition conn_merge_names (body : list stmt) : list str :=
+  flat_map (fun s => match s with
+                     | SConn a b => match nb_of a, nb_of b with
+                                    | Some (an, ai), Some (bn, bi) => [merge_name an ai bn bi]
+                                    | _, _ => []
+                                    end
+                     | _ => []
+                     end) body.
+
+Definition conn_fresh (body : list stmt) : bool :=
+  forallb (fun c => negb (existsb (str_eqb c) (conn_merge_names body))) (conn_cables body).
+
 Definition reserved (nm : str) : bool := is_prefix k_logic_gate nm || str_eqb nm k_latch_def.
 
 (* a black-box section consists of its port lists and .blackbox *)
@@ -336,16 +355,33 @@ Definition bb_shape (body : list stmt) : bool :=
   negb (has_blackbox body) ||
   forallb (fun s => match s with SInputs _ | SOutputs _ | SClock _ | SBlackbox => true | _ => false end) body.
 
+(* .latch in out [type control] [init]: with three operands the third is the initial value, which the
+   reader takes for the net of port "type"; one, or more than five, operands are not BLIF *)
+Definition latch_arity_ok (body : list stmt) : bool :=
+  forallb (fun s => match s with
+                    | SLatch toks => let k := length toks in Nat.eqb k 2 || Nat.eqb k 4 || Nat.eqb k 5
+                    | _ => true
+                    end) body.
+
 Definition body_ok (nm : str) (body : list stmt) : bool :=
-  conns_last body && nodup_strs (conn_cables body) && bb_shape body &&
+  conns_last body && nodup_strs (conn_cables body) && conn_fresh body && bb_shape body &&
   negb (reserved nm) && negb (match nm with [] => true | _ => false end) &&
-  forallb (fun s => match s with SSub _ r _ => negb (reserved r) | _ => true end) body.
+  forallb (fun s => match s with SSub _ r _ => negb (reserved r) | _ => true end) body &&
+  latch_arity_ok body.
+
+(* "#" starts a comment anywhere on a line; the reader only knows comment lines: a statement line
+   may not contain the character *)
+Definition no_inline_hash (d : doc) : bool :=
+  forallb (fun l => match l with
+                    | [] => true
+                    | t :: _ => str_eqb t k_hash || negb (existsb (fun u => existsb (N.eqb 35) u) l)
+                    end) d.
 
 Definition supported (d : doc) : bool :=
   match classify d, grammar d with
   | Ok a, Some b =>
     stmts_eqb a b && well_nested false b && nodup_strs (model_names b) &&
-    forallb (fun nm => body_ok nm (body_of nm [] b)) (model_names b)
+    forallb (fun nm => body_ok nm (body_of nm [] b)) (model_names b) && no_inline_hash d
   | _, _ => false
   end.
 
@@ -393,3 +429,254 @@ Definition equiv (n n' : bnv) : Prop :=
 
 Definition C18_roundtrip_statement : Prop :=
   forall d n, elab d = Ok n -> exists n', elab (emit n) = Ok n' /\ equiv n n'.
+
+(* ====================================================================== write-then-read, decidably *)
+(* [equiv_b] decides [equiv] (soundness: Proofs/BlifRound.v); [rt_check n] runs the written file of
+   [n] through the reader and compares: a checker of the round trip of one netlist.
+   [roundtrippable n] is the structural side condition under which the round trip is claimed to
+   succeed: it excludes the classes of netlist on which C18_full fails (see Props/C18.v). *)
+Definition npin_eqb (a b : npin) : bool :=
+  match a, b with
+  | NTop p x, NTop q y => str_eqb p q && Nat.eqb x y
+  | NInst i p x, NInst j q y => str_eqb i j && str_eqb p q && Nat.eqb x y
+  | _, _ => false
+  end.
+
+Definition onpin_is (m : model) (a : npin) (pr : pinref) : bool :=
+  match npin_of m pr with Some x => npin_eqb x a | None => false end.
+
+Definition snn_b (m : model) (a b : npin) : bool :=
+  existsb (fun c => existsb (fun w => existsb (onpin_is m a) w && existsb (onpin_is m b) w) (c_wires c)) (m_cables m).
+
+(* the wires of a model as lists of named pins *)
+Definition named_wires (m : model) : list (list npin) :=
+  map (fun w => flat_map (fun pr => match npin_of m pr with Some x => [x] | None => [] end) w)
+      (flat_map c_wires (m_cables m)).
+
+Definition snn_w (ws : list (list npin)) (a b : npin) : bool :=
+  existsb (fun w => existsb (npin_eqb a) w && existsb (npin_eqb b) w) ws.
+
+Definition npins (m : model) : list npin := concat (named_wires m).
+
+(* every two pins of a wire of one model share a wire of the other, both ways *)
+Definition nets_eq_b (m m' : model) : bool :=
+  let ws := named_wires m in
+  let ws' := named_wires m' in
+  forallb (fun w => forallb (fun a => forallb (fun b => npin_eqb a b || snn_w ws' a b) w) w) ws &&
+  forallb (fun w => forallb (fun a => forallb (fun b => npin_eqb a b || snn_w ws a b) w) w) ws'.
+
+Definition kind_eqb (a b : ikind) : bool :=
+  match a, b with KSub, KSub | KGate, KGate | KNames, KNames | KLatch, KLatch => true | _, _ => false end.
+
+Fixpoint kvs_eqb (a b : list (str * str)) : bool :=
+  match a, b with
+  | [], [] => true
+  | (k, v) :: a', (k', v') :: b' => str_eqb k k' && str_eqb v v' && kvs_eqb a' b'
+  | _, _ => false
+  end.
+
+Fixpoint covers_eqb (a b : list (str * option str)) : bool :=
+  match a, b with
+  | [], [] => true
+  | (k, v) :: a', (k', v') :: b' => str_eqb k k' && ostr_eqb v v' && covers_eqb a' b'
+  | _, _ => false
+  end.
+
+Definition same_data_b (i j : inst) : bool :=
+  kind_eqb (i_kind i) (i_kind j) && str_eqb (i_ref i) (i_ref j) && kvs_eqb (i_attr i) (i_attr j) &&
+  kvs_eqb (i_param i) (i_param j) && covers_eqb (i_covers i) (i_covers j) &&
+  match i_cname i with Some c => ostr_eqb (i_cname j) (Some c) | None => true end.
+
+Definition insts_fwd_b (m m' : model) : bool :=
+  forallb (fun i => match i_name i with
+                    | Some nm => existsb (fun j => ostr_eqb (i_name j) (Some nm) && same_data_b i j) (m_insts m')
+                    | None => true
+                    end) (m_insts m).
+
+Definition insts_bwd_b (m m' : model) : bool :=
+  forallb (fun j => match i_name j with
+                    | Some nm => existsb (fun i => ostr_eqb (i_name i) (Some nm) && same_data_b i j) (m_insts m)
+                    | None => true
+                    end) (m_insts m').
+
+Definition equiv_model_b (m m' : model) : bool := insts_fwd_b m m' && insts_bwd_b m m' && nets_eq_b m m'.
+
+(* the declared ports (those with a direction) of the models the writer keeps: name, direction, width *)
+Definition ports_view (m : model) : list (str * dir * nat) :=
+  map (fun q => (p_name q, p_dir q, p_width q)) (filter (fun q => negb (dir_eqb (p_dir q) DUndef)) (m_ports m)).
+
+Definition same_ports (m m' : model) : Prop := forall x, In x (ports_view m) <-> In x (ports_view m').
+
+Definition equiv_ports (n n' : bnv) : Prop :=
+  match b_top n with
+  | Some (_, t) =>
+    forall nm, In nm (reach (S (length (b_models n) + total_insts (b_models n))) (b_models n) [t] []) ->
+      m_lib (get_model nm (b_models n)) <> LPrim ->
+      forall m', find_model nm (b_models n') = Some m' -> same_ports (get_model nm (b_models n)) m'
+  | None => True
+  end.
+
+Definition pv_eqb (a b : str * dir * nat) : bool :=
+  str_eqb (fst (fst a)) (fst (fst b)) && dir_eqb (snd (fst a)) (snd (fst b)) && Nat.eqb (snd a) (snd b).
+
+Definition same_ports_b (m m' : model) : bool :=
+  forallb (fun x => existsb (pv_eqb x) (ports_view m')) (ports_view m) &&
+  forallb (fun x => existsb (pv_eqb x) (ports_view m)) (ports_view m').
+
+(* the named pins that sit on some wire; every definition reached from the top still exists *)
+Definition same_pins (m m' : model) : Prop := forall a, In a (npins m) <-> In a (npins m').
+
+Definition equiv_pins (n n' : bnv) : Prop :=
+  match b_top n with
+  | Some (_, t) =>
+    forall nm, In nm (reach (S (length (b_models n) + total_insts (b_models n))) (b_models n) [t] []) ->
+      (exists m', find_model nm (b_models n') = Some m') /\
+      (m_lib (get_model nm (b_models n)) <> LPrim ->
+       forall m', find_model nm (b_models n') = Some m' -> same_pins (get_model nm (b_models n)) m')
+  | None => True
+  end.
+
+Definition same_pins_b (m m' : model) : bool :=
+  forallb (fun a => existsb (npin_eqb a) (npins m')) (npins m) &&
+  forallb (fun a => existsb (npin_eqb a) (npins m)) (npins m').
+
+Definition equiv_b (n n' : bnv) : bool :=
+  match b_top n, b_top n' with
+  | Some (_, t), Some (_, t') =>
+    str_eqb t t' &&
+    forallb (fun nm => match find_model nm (b_models n') with
+                       | Some m' => lib_eqb (m_lib (get_model nm (b_models n))) LPrim ||
+                                    (equiv_model_b (get_model nm (b_models n)) m' &&
+                                     same_ports_b (get_model nm (b_models n)) m' &&
+                                     same_pins_b (get_model nm (b_models n)) m')
+                       | None => false
+                       end)
+            (reach (S (length (b_models n) + total_insts (b_models n))) (b_models n) [t] [])
+  | None, None => true
+  | _, _ => false
+  end.
+
+Definition rt_check (n : bnv) : bool :=
+  match elab (emit n) with Ok n' => equiv_b n n' | Error _ => false end.
+
+(* ---- the structural side condition ---- *)
+(* every top-level pin sits on the wire its own name designates (only .conn moves it elsewhere):
+   the writer names the port by itself and the net by its cable *)
+Definition ports_on_own_nets (m : model) : bool :=
+  forallb (fun c =>
+    forallb (fun kw =>
+      forallb (fun pr => match pr with
+                         | PTop p b => str_eqb p (c_name c) && Nat.eqb b (fst kw)
+                         | PInst _ _ _ => true
+                         end) (snd kw)) (indexed (c_wires c))) (m_cables m).
+
+(* the instances in the order the writer emits them *)
+Definition written_insts (m : model) : list (nat * inst) :=
+  flat_map (fun k => filter (fun ni => kind_is k (snd ni)) (indexed (m_insts m))) [KSub; KGate; KNames; KLatch].
+
+(* the name the reader gives an instance statement of the written file before it reads its .cname *)
+Definition reread_first_name (ms : list model) (m : model) (tbl : list (str * nat)) (ni : nat * inst)
+  : option str * list (str * nat) :=
+  let '(idx, i) := ni in
+  match i_kind i with
+  | KSub | KGate => let '(nm, tbl') := default_name tbl (i_ref i) in (Some nm, tbl')
+  | KNames =>
+    match rev (names_line ms m idx i) with
+    | lastnet :: _ :: _ =>
+      if contains k_unconn lastnet then let '(nm, tbl') := default_name tbl (i_ref i) in (Some nm, tbl')
+      else (Some lastnet, tbl)
+    | _ => (None, tbl)
+    end
+  | KLatch =>
+    match latch_line m idx i with
+    | _ :: _ :: out :: _ => (Some out, tbl)
+    | _ => (None, tbl)
+    end
+  end.
+
+Fixpoint reread_names_from (ms : list model) (m : model) (tbl : list (str * nat)) (seen : list str)
+  (l : list (nat * inst)) : bool :=
+  match l with
+  | [] => true
+  | ni :: l' =>
+    match reread_first_name ms m tbl ni, i_name (snd ni) with
+    | (Some first, tbl'), Some final =>
+      negb (existsb (str_eqb first) seen) && negb (existsb (str_eqb final) seen) &&
+      reread_names_from ms m tbl' (seen ++ [final]) l'
+    | _, _ => false
+    end
+  end.
+
+Definition reread_names_ok (ms : list model) (m : model) : bool :=
+  reread_names_from ms m [] [] (written_insts m).
+
+(* no definition instantiates itself, directly or not: every chain of instantiations from [nm] ends *)
+Fixpoint depth_ok (fuel : nat) (ms : list model) (nm : str) : bool :=
+  match fuel with
+  | O => false
+  | S f => forallb (fun i => depth_ok f ms (i_ref i)) (m_insts (get_model nm ms))
+  end.
+
+(* every bit of a port with a direction is attached: the writer names all bits of such a port *)
+Definition port_bits_attached (m : model) : bool :=
+  forallb (fun q => dir_eqb (p_dir q) DUndef ||
+                    forallb (fun b => cables_have (PTop (p_name q) b) (m_cables m)) (seq 0 (p_width q))) (m_ports m).
+
+(* formal=actual is split at the first "=": no port of an instance written as .subckt/.gate may have
+   the character in its name *)
+Definition formals_ok (m : model) : bool :=
+  forallb (fun i => match i_kind i with
+                    | KSub | KGate => forallb (fun pb => negb (existsb (N.eqb c_eq) (fst pb))) (i_pins i)
+                    | _ => true
+                    end) (m_insts m).
+
+(* the data of an instance comes back as it is: attribute and parameter keys are distinct (they are
+   dictionaries), truth-table rows start with a row token and belong to .names instances only, a .names
+   instance references logic-gate_<number of its operands - 1>, a .latch instance generic-latch *)
+Fixpoint nodup_keys (l : list (str * str)) : bool :=
+  match l with [] => true | (k, _) :: l' => negb (existsb (fun kv => str_eqb k (fst kv)) l') && nodup_keys l' end.
+
+Definition data_ok (ms : list model) (m : model) (ni : nat * inst) : bool :=
+  let '(idx, i) := ni in
+  nodup_keys (i_attr i) && nodup_keys (i_param i) &&
+  match i_kind i with
+  | KSub | KGate => match i_covers i with [] => true | _ => false end
+  | KNames => str_eqb (i_ref i) (k_logic_gate ++ dec (length (tl (names_line ms m idx i)) - 1))
+  | KLatch => str_eqb (i_ref i) k_latch_def && match i_covers i with [] => true | _ => false end
+  end.
+
+Definition names_some (m : model) : bool :=
+  forallb (fun i => match i_name i with Some _ => true | None => false end) (m_insts m).
+
+Definition rows_ok (m : model) : bool :=
+  forallb (fun i => forallb (fun c => is_row_tok (fst c)) (i_covers i)) (m_insts m).
+
+(* the models the writer writes as sections of their own *)
+Definition written_names (n : bnv) : list str :=
+  match b_top n with
+  | None => []
+  | Some (_, tr) =>
+    let ms := b_models n in
+    filter (fun nm => negb (lib_eqb (m_lib (get_model nm ms)) LPrim)) (reach (S (length ms + total_insts ms)) ms [tr] [])
+  end.
+
+Definition roundtrippable (n : bnv) : bool :=
+  match b_top n with
+  | None => true
+  | Some (_, tr) =>
+    let ms := b_models n in
+    negb (lib_eqb (m_lib (get_model tr ms)) LPrim) &&
+    depth_ok (S (length ms)) ms tr &&
+    forallb (fun nm => match m_insts (get_model nm ms) with [] => true | _ => false end)
+            (filter (fun nm => lib_eqb (m_lib (get_model nm ms)) LPrim) (reach (S (length ms + total_insts ms)) ms [tr] [])) &&
+    forallb (fun nm => let m := get_model nm ms in
+               ports_on_own_nets m && port_bits_attached m && formals_ok m && reread_names_ok ms m &&
+               names_some m && rows_ok m && forallb (data_ok ms m) (written_insts m))
+            (written_names n)
+  end.
+
+(* the round trip on the fragment: NOT proved in general (checked case by case by [rt_check],
+   whose verdict is proved sound, on every document the correspondence run generates) *)
+Definition C18_roundtrip_on_fragment : Prop :=
+  forall d n, elab d = Ok n -> roundtrippable n = true ->
+    exists n', elab (emit n) = Ok n' /\ equiv n n' /\ equiv_ports n n' /\ equiv_pins n n'.
